@@ -246,6 +246,14 @@ def extract_writer(src, rep):
             return isinstance(test.ops[0], ast.In)       # the writer is analysed for a structured field
         if t.startswith('hasattr(self[') and "'keys'" in t:
             return it.decide(('bool', 'single-line'), 'the field holds a single record')
+        if isinstance(test, ast.Compare) and len(test.ops) == 1 and isinstance(test.ops[0], (ast.In, ast.NotIn)):
+            try:
+                w_ = it.ev(test.comparators[0], env)
+            except AnalysisError:
+                w_ = None
+            if isinstance(w_, Opaque) and w_.why == 'widths:field':
+                r_ = it.decide(('present', 'width'), 'a width is registered for the sub-field')
+                return r_ if isinstance(test.ops[0], ast.In) else not r_
         if isinstance(test, ast.Call) and norm(test.func) == 'hasattr' and len(test.args) == 2 and norm(test.args[1]) == "'keys'":
             v = it.ev(test.args[0], env)
             if isinstance(v, Obj) and v.path == 'record':
@@ -272,6 +280,8 @@ def extract_writer(src, rep):
             return NotImplemented
         if isinstance(base, Obj) and base.path == 'record':
             return Slot('token')
+        if isinstance(base, Opaque) and base.why == 'widths:field':
+            return Opaque('width')
         return NotImplemented
 
     def call_hook(it, call, env):
@@ -279,6 +289,16 @@ def extract_writer(src, rep):
             return Opaque('lower-cased key')
         if norm(call.func) == 'len':
             return Opaque('len')
+        # a private helper that hands out the widths registered for the sub-fields of this field (it reads the table of registered widths
+        # and returns a mapping): the mapping of the widths -- a sub-field is in it, or not
+        if isinstance(call.func, ast.Attribute) and isinstance(call.func.value, ast.Name) and call.func.value.id in ('self', 'cls') and call.func.attr.startswith('_'):
+            hw_ = src.mod(MOD).method('_multivalued', call.func.attr)
+            if hw_ is not None and isinstance(hw_.node, ast.FunctionDef) and hw_.node is not f.node \
+                    and any(isinstance(n_, ast.Attribute) and n_.attr == '_fixed_field_lengths' for n_ in ast.walk(hw_.node)) \
+                    and all(r_.value is not None and isinstance(r_.value, (ast.Name, ast.Dict, ast.DictComp)) for r_ in ast.walk(hw_.node) if isinstance(r_, ast.Return)) \
+                    and any(isinstance(r_, ast.Return) for r_ in ast.walk(hw_.node)):
+                rep.saw_func(hw_)
+                return Opaque('widths:field')
         # a private helper of the class (self._x(...) / cls._x(...)): interpreted in place
         if isinstance(call.func, ast.Attribute) and isinstance(call.func.value, ast.Name) and call.func.value.id in ('self', 'cls', '_multivalued') \
                 and call.func.attr.startswith('_') and not call.func.attr.startswith('__') and not call.keywords:
@@ -671,34 +691,117 @@ def r2b_same_table(rep, src):
     fr_node, _inl = normalize.inline_helpers(fr)        # the conversion may sit in a helper of the class
     set_parents(fr_node)
     fr = Func(fr.module, fr_node, fr.qual, fr.cls)
-    loops = table_loops(fr)
-    okr = False
-    why = 'the reader does not iterate _multivalued_fields.items()'
-    if loops:
-        loop, kv = loops[0]
-        if isinstance(loop.target, ast.Tuple) and len(loop.target.elts) == 2 and norm(loop.iter).endswith('_multivalued_fields.items()'):
-            fv = norm(loop.target.elts[1])
-            zips = [c for c in ast.walk(loop) if isinstance(c, ast.Call) and norm(c.func) == 'zip' and len(c.args) == 2]
-            if zips and norm(zips[0].args[0]) == fv and isinstance(zips[0].args[1], ast.Call) and isinstance(zips[0].args[1].func, ast.Attribute) \
-                    and zips[0].args[1].func.attr == 'split' and not zips[0].args[1].args:
-                okr = True
-            else:
-                why = 'records are not built as zip(<sub-field names of this table entry>, line.split())'
-            src_lines = [c for c in ast.walk(loop) if isinstance(c, ast.Call) and isinstance(c.func, ast.Attribute) and c.func.attr == 'splitlines']
-            if okr and not src_lines:
-                okr, why = False, 'the field text is not split into lines'
-    if okr:
-        rep.ok('C12.R2', fr.site, 'reader: record = zip(table entry, line.split())', 'positional pairing with whitespace split')
+    # the reader interpreted (sa.heap) on a paragraph whose Files field holds the text, with the table entry [md5sum, size, name]: the
+    # records that end up under the field, for the customary layout, for the aligned layout of Release / Index (several blanks in front
+    # of the size) and for lines with tabs and trailing blanks (Deb822 keeps them in the field text) -- every sub-field is the
+    # whitespace-free token at its position
+    from .. import heap as H_
+    body_ = [st for st in fr_node.body if not (isinstance(st, ast.Expr) and isinstance(st.value, ast.Call) and isinstance(st.value.func, ast.Attribute)
+                                               and st.value.func.attr == '__init__')]
+    if len(body_) == len(fr_node.body):
+        raise AnalysisError('%s: the call of the paragraph constructor was not found' % fr.site)
+    import copy as _copy
+    rd_node = _copy.copy(fr_node)
+    rd_node.body = body_
+
+    def read(text):
+        content = {'Files': text}
+
+        def getitem(it_, a, k):
+            k_ = a[1].concrete() if hasattr(a[1], 'concrete') else a[1]
+            if not isinstance(k_, str) or k_.lower() != 'files':
+                raise H_.Raised('KeyError', it_.h.version, 0)
+            return content['Files']
+
+        def setitem(it_, a, k):
+            if not isinstance(a[1], str) or a[1].lower() != 'files':
+                raise AnalysisError('the reader stores under the key %r' % (a[1],))
+            content['Files'] = a[2]
+
+        def mkdict(it_, a, k):
+            d_ = it_.h.new_dict()
+            for p_ in (it_.seq(a[0]) if a else []):
+                p_ = it_.seq(p_)
+                it_.h.dict_set(d_, p_[0], p_[1])
+            return d_
+        def get(it_, a, k):
+            if not (isinstance(a[0], H_.Ref) and it_.h.objs[a[0].name]['__class__'] == '_multivalued'):
+                raise AnalysisError('.get() of %r in the reader' % (a[0],))
+            try:
+                return getitem(it_, a[:2], k)
+            except H_.Raised:
+                return a[2] if len(a) > 2 else k.get('default')
+        heap_ = H_.Heap(src.mod(MOD), hooks={'__getitem__': getitem, '__setitem__': setitem, '.get': get, 'Deb822Dict': mkdict})
+        it_ = H_.Interp(heap_)
+        tbl = heap_.new_dict()
+        heap_.dict_set(tbl, 'files', heap_.new_list(['md5sum', 'size', 'name']))
+        me_ = heap_.alloc('_multivalued', {'_multivalued_fields': tbl})
+        try:
+            it_.call(H_.Closure(rd_node, {}, me_, fr.cls), [])
+        except H_.Raised as x_:
+            return 'raises %s (line %d)' % (x_.exc, x_.lineno)
+
+        def plain(v_):
+            if isinstance(v_, H_.Ref) and heap_.objs[v_.name]['__class__'] == 'dict':
+                return {k2_: plain(x_) for k2_, x_ in heap_.objs[v_.name]['entries']}
+            if heap_.is_list(v_):
+                return [plain(x_) for x_ in heap_.items(v_)]
+            return v_.concrete() if hasattr(v_, 'concrete') else v_
+        return plain(content['Files'])
+    R1, R2 = {'md5sum': 'M1', 'size': 'S1', 'name': 'N1'}, {'md5sum': 'M2', 'size': 'S2', 'name': 'N2'}
+    rproblems, nread = [], 0
+    for text, want, label in (
+            ('\n M1 S1 N1\n M2 S2 N2', [R1, R2], 'two record lines'),
+            ('\n M1 S1 N1', [R1], 'one record line'),
+            (' M1 S1 N1', R1, 'a record on the field line'),
+            ('\n M1               S1 N1\n M2               S2 N2', [R1, R2], 'the aligned layout (size right-aligned in 16 columns)'),
+            ('\n M1 S1 N1 \n\tM2\t S2   N2\t', [R1, R2], 'record lines with tabs, runs of blanks and a trailing blank'),
+            (' M1 S1 N1 ', R1, 'a record on the field line with a trailing blank')):
+        got = read(text)
+        nread += 1
+        if got != want:
+            rproblems.append('%s, %r, are read as %r; the records are %r (each sub-field the whitespace-free token at its position)' % (label, text, got, want))
+    if not rproblems:
+        rep.ok('C12.R2', fr.site, 'reader: record = the tokens of the line under the sub-field names of the table entry', '%d layouts interpreted' % nread)
     else:
-        rep.fail('C12.R2', fr.site, 'reader: record = zip(table entry, line.split())', why, where=fr.where)
-    asg = [s for s in walk_no_nested(fw.node) if isinstance(s, ast.Assign) and isinstance(s.value, ast.Subscript)
-           and norm(s.value.value) == 'self._multivalued_fields']
-    inner = [l for l in walk_no_nested(fw.node) if isinstance(l, ast.For) and asg and norm(l.iter) == norm(asg[0].targets[0])]
-    okw = bool(asg) and bool(inner) and any(isinstance(x, ast.Subscript) and norm(x.slice) == norm(inner[0].target) for x in ast.walk(inner[0]))
-    if okw:
-        rep.ok('C12.R2', fw.site, 'writer: sub-fields in table order', 'for x in self._multivalued_fields[key.lower()]: item[x]')
+        rep.fail('C12.R2', fr.site, 'reader: record = the tokens of the line under the sub-field names of the table entry', rproblems[0], where=fr.where)
+    # the writer interpreted (sa.heap) on a field whose table entry is [md5sum, size, name] and whose records hold a different mark
+    # under every sub-field (the records themselves list their keys in another order): the marks come out in table order, one
+    # record per line, a single record on the field line
+    problems = []
+    for single in (True, False):
+        content = {}
+
+        def getitem(it_, a, k, content=content):
+            k_ = a[1].concrete() if hasattr(a[1], 'concrete') else a[1]
+            if k_ not in content:
+                raise H_.Raised('KeyError', it_.h.version, 0)
+            return content[k_]
+        heap_ = H_.Heap(src.mod(MOD), hooks={'__getitem__': getitem})
+        it_ = H_.Interp(heap_)
+
+        def rec(a_, b_, c_):
+            d_ = heap_.new_dict()
+            for k_, v_ in (('name', c_), ('md5sum', a_), ('size', b_)):
+                heap_.dict_set(d_, k_, v_)
+            return d_
+        content['Files'] = rec('M1', 'S1', 'N1') if single else heap_.new_list([rec('M1', 'S1', 'N1'), rec('M2', 'S2', 'N2')])
+        tbl = heap_.new_dict()
+        heap_.dict_set(tbl, 'files', heap_.new_list(['md5sum', 'size', 'name']))
+        me_ = heap_.alloc('_multivalued', {'_multivalued_fields': tbl, '_fixed_field_lengths': heap_.new_dict()})
+        want_ = ' M1 S1 N1' if single else '\n M1 S1 N1\n M2 S2 N2'
+        try:
+            r_ = it_.call(H_.Closure(fw.node, {}, me_, fw.cls), ['Files'])
+            r_ = r_.concrete() if hasattr(r_, 'concrete') else r_
+        except H_.Raised as x_:
+            r_ = 'raises %s' % x_.exc
+        if r_ != want_:
+            problems.append('%s with the table entry [md5sum, size, name] is written as %r; the reader pairs the tokens of a line with the table entry by position, so the text '
+                            'must be %r' % ('a single record' if single else 'two records', r_, want_))
+    if not problems:
+        rep.ok('C12.R2', fw.site, 'writer: sub-fields in table order', 'a single record and a list of two, marks in table order')
     else:
-        rep.fail('C12.R2', fw.site, 'writer: sub-fields in table order', 'the writer does not emit the sub-fields in the order of the table entry the reader uses', where=fw.where)
+        rep.fail('C12.R2', fw.site, 'writer: sub-fields in table order', '; '.join(problems), where=fw.where)
     # (which texts the reader takes for a record list and which for a single record, and that this is what the writer lays out, is
     # decided on languages by C12.R5)
 
